@@ -1,4 +1,5 @@
 import LhasaV.Model.Safe
+import LhasaV.Lemmas.ListProps
 /-!
 # C18 — archive-derived text printed by the tool is printable ASCII only
 -/
@@ -16,5 +17,23 @@ theorem safe_keeps_printable (b : UInt8) (h : 0x20 ≤ b ∧ b ≤ 0x7e) : safeB
     decide +kernel
   have h2 := this b.toNat (UInt8.toNat_lt b)
   simpa using h2 (by simpa using h)
+
+/-- **Every byte of every listing is printable ASCII or a newline** — `lha l`, `lha lv`, `lha v`,
+`lha vv`, every quiet level, every clock value, for ARBITRARY headers: arbitrary bytes in every
+string field (path, file name, link target, method, user and group names), arbitrary numbers. -/
+theorem listing_printable (verboseList verboseOpt : Bool) (quiet now archiveMtime : Nat)
+    (hdrs : List Header.Hdr) :
+    ∀ b ∈ ListOut.render verboseList verboseOpt quiet now archiveMtime hdrs,
+      (0x20 ≤ b ∧ b ≤ 0x7e) ∨ b = 0x0a :=
+  ListProps.render_printable verboseList verboseOpt quiet now archiveMtime hdrs
+
+/-- `lha p`: the output is a sequence of (banner, contents) segments; the contents are the members'
+own decoded bytes, every banner byte is printable ASCII or a newline, whatever the archive holds. -/
+theorem print_banners_printable (archive : Array UInt8) (o : Extract.Opts) :
+    ∃ segs : List (Bytes × Bytes),
+      Extract.print archive o = segs.flatMap (fun p => p.1 ++ p.2) ∧
+      ListProps.SegmentsOk o segs ∧
+      ∀ p ∈ segs, ∀ b ∈ p.1, (0x20 ≤ b ∧ b ≤ 0x7e) ∨ b = 0x0a :=
+  ListProps.print_banners_printable archive o
 
 end LhasaV.Props.C18
